@@ -1,6 +1,6 @@
 ------------------------------ MODULE MC_C18 ------------------------------
 EXTENDS HeaderTools, Json
-Sig == <<IF Len(fields) % 2 = 1 THEN "odd" ELSE "even", IF \E i \in DOMAIN fields : IsSpecies(fields[i]) THEN "species" ELSE "no-species",
+Sig == <<IF Len(fields) % 2 = 1 THEN (IF fields \in DupFree THEN "odd" ELSE "odd-with-repeat") ELSE (IF fields \in DupFree THEN "even" ELSE "even-with-repeat"), IF \E i \in DOMAIN fields : IsSpecies(fields[i]) THEN "species" ELSE "no-species",
          IF \E i \in DOMAIN fields : fields[i] = "Y(H2)_avg" THEN "species-lookalike" ELSE IF \E i \in DOMAIN fields : fields[i] \in {"foo", "bar"} THEN "unknown-names" ELSE "known",
          IF \E i \in DOMAIN fields : fields[i] = "Y(CH2(S))" THEN "nested-parentheses" ELSE IF \E i \in DOMAIN fields : fields[i] = "heat release" THEN "blank-in-name" ELSE "plain", mode, Len(fields)>>
 Scenario == [prop |-> "C18", sig |-> Sig, fields |-> fields, mode |-> mode,
